@@ -174,6 +174,10 @@ func (j *JA4Fingerprint) unmarshalFirstALPN(chs *utls.ClientHelloSpec) {
 	if len(alpn) > 2 {
 		alpn = string(alpn[0]) + string(alpn[len(alpn)-1])
 	}
+	if len(alpn) == 1 {
+		// a single character is both the first and the last one
+		alpn = alpn + alpn
+	}
 	if alpn[0] > 127 {
 		alpn = "99"
 	}
